@@ -747,3 +747,14 @@ package control
 //@   vpure
 //@   ensures nth(strings.Cut(cacheKey, "|"), 2) ==> result == nth(strings.Cut(cacheKey, "|"), 0)
 //@   ensures !nth(strings.Cut(cacheKey, "|"), 2) ==> result == cacheKey
+
+// C17/C11: the userspace matcher registers every domain set under its own rule index and key, and a
+// matcher that failed to build (bad regex, rule index beyond the limit) fails the whole build
+//@ func (*RoutingMatcherBuilder).BuildUserspace
+//@   anchorsonly
+//@   dyncalls noeffect
+//@   modifies *
+//@   at call NewAhocorasickSlimtrie#1 assert a1 == consts.MaxMatchSetLen
+//@   at call AddSet#1 assert a0 == domainMatcher && a1 == domains.RuleIndex && a3 == domains.Key && a2.$base == domains.Domains.$base && len(a2) == len(domains.Domains)
+//@   at call Build#1 assert a0 == domainMatcher
+//@   ensures err == nil ==> calls("AhocorasickSlimtrie).Build") == 1
